@@ -269,49 +269,8 @@ fn c13_twin_must_fail() {
     assert!(!matches!(st.read_frame(&mut rd), Ok(Some(_))), "twin: wrong oracle");
 }
 
-/// ASYNC twin of `skip_then_known` for the peer-opened request stream (the path the driver uses): one unknown
-/// non-GREASE frame (1-byte type, one payload byte) followed by a frame from the alphabet; the follower must be treated
-/// exactly as if it were the first frame (an ignored frame leaves no trace in the stream state).
-// @h props=C13,C15,C12 tier=quick t=2400 mem=20 sub=frame-skip-async-biremote covers=any
-// @fn wtransport-proto/src/stream.rs StreamBiRemoteH3::{read_frame_async,validate_frame}; wtransport-proto/src/frame.rs Frame::read_async
-// @bound peer-opened request stream, async reader; unknown non-GREASE 1-byte type with one symbolic payload byte, followed by DATA / HEADERS / SETTINGS / WT signal (valid id) / GREASE
-// @oracle the unknown frame is skipped whole and leaves no trace: the follower gets the verdict the role table gives a FIRST frame (in particular a WT signal right after ignored frames still upgrades the stream, as with the one-shot reader: c13_skip_unknown_biremote)
-// @assume From<io::Error> stub; byte-wise model source (L1 covers chunkings)
-// @unwindset read_frame_async:2 GetBuffer:3 GetVarint:3
-#[kani::proof]
-#[kani::unwind(8)]
-#[kani::stub(<wtransport_proto::bytes::IoReadError as std::convert::From<std::io::Error>>::from, crate::common::io_read_err_stub)]
-fn c13_async_skip_unknown_biremote() {
-    use wtransport_proto::stream::IoReadError;
-    let t: u8 = kani::any();
-    kani::assume(t < 0x40 && t != 0x00 && t != 0x01 && t != 0x04 && t != 0x21);
-    let up: u8 = kani::any();
-    let sel: u8 = kani::any();
-    kani::assume(sel < 5);
-    let pb: u8 = kani::any();
-    let f2: [u8; 3] = match sel {
-        0 => [0x00, 0x01, pb],
-        1 => [0x01, 0x01, pb],
-        2 => [0x04, 0x01, pb],
-        3 => [0x40, 0x41, 0x04],
-        _ => [0x21, 0x01, pb],
-    };
-    let wire: [u8; 6] = [t, 0x01, up, f2[0], f2[1], f2[2]];
-    let mut st = Stream::accept_bi().upgrade();
-    let mut rd = ByteReader::<6> { data: wire, len: 6, off: 0 };
-    let got = poll_once(st.read_frame_async(&mut rd)).unwrap();
-    match (got, sel) {
-        (Err(IoReadError::H3(e)), 2) => {
-            assert!(e.to_code().into_inner() == 0x105, "SETTINGS on a request stream must be H3_FRAME_UNEXPECTED");
-            kani::cover!(true, "settings refused after a skipped frame");
-        }
-        (Ok(f), s) if s != 2 => {
-            let id = [0u64, 1, 4, 0x41, 0x21][s as usize];
-            assert!(kind_id(f.kind()) == id, "frame after a skipped frame mis-identified (async)");
-            assert!(rd.off == 6, "input not consumed whole (async)");
-            kani::cover!(s == 3, "WT signal right after an ignored frame still upgrades");
-            core::mem::forget(f);
-        }
-        _ => assert!(false, "an ignored unknown frame changed the treatment of the following frame (async reader)"),
-    }
-}
+// NOTE: an ASYNC twin of `skip_then_known` (unknown frame, then a follower, through `read_frame_async`) was tried in
+// four variants (symbolic / concrete type and follower, per-loop bounds, global unwind 3) and ran out of 20 GB each
+// time: two iterations of the async skip loop inside ONE future do not fit, while two separate calls with one iteration
+// each do (c12_typestate_async_*). "An unknown frame leaves no trace in the ASYNC typestate" is therefore outside the
+// claim (seeded mutant C15b is missed); the one-shot readers are covered above.
